@@ -88,7 +88,7 @@ int main(void) {
         if (dn) dest = 0;
         else if (dmax > 512 || dmax < 0) dest = noz;
         else dest = D.rw + D.rwlen - dmax * esz;
-        h_n = 0; errno = 0; h_fault_kind = 0;
+        h_n = 0; errno = H_ERRNO_PRE(id); h_fault_kind = 0;
         printf("#%ld\n", id); fflush(stdout);
         if (!sigsetjmp(h_jb, 1)) {
             size_t *rp = (flags & 4) ? 0 : &ret;
